@@ -18,13 +18,21 @@
     * `shape_projection_typedDict` TypedDict yields it sorted by name with the defaults erased;
     * `kinds_agree_*`          hence equal / field-wise equal behaviour of loader, dumper, errors under
                                every name mapping, with the TypedDict deviations spelled out;
-    * `cross_kind_convert_copies_all`  for all six kinds without side condition.
+    * `cross_kind_convert_copies_all`  for all six kinds without side condition;
+    * `convert_*`, `kinds_agree_convert*`  the generated *constructor call* (`_make_constructor_call`:
+                               positional / keyword passing over `InputShape.params`, the one stage that
+                               reads the parameter kinds in which the six kinds differ), bound by Python's
+                               call rules, gives every destination field its own source value and nothing
+                               else — also when the source lacks optional destination fields in any position.
 -/
 import AdaptixModel.Kinds.Shapes
 import AdaptixProofs.Lemmas.KindsShapes
 import AdaptixProofs.Lemmas.KindsProjections
 import AdaptixProofs.Lemmas.KindsSemantics
 import AdaptixProofs.Lemmas.KindsDeclarable
+import AdaptixModel.Kinds.Convert
+import AdaptixProofs.Lemmas.KindsConvert
+import AdaptixProofs.Lemmas.KindsParams
 
 namespace Adaptix.Kinds.C17
 
@@ -357,6 +365,204 @@ theorem cross_kind_convert_copies_all {V : Type} {m : LogicalModel} {k₁ k₂ :
   obtain ⟨g, hg, hgf⟩ := List.mem_map.mp this
   have := convertArgs_copies hex obj g hg
   simpa [hgf] using this
+
+/-! ## 4b. The generated constructor call: every kind's destination receives the same thing
+
+  Section 4 says which source field a destination field is *linked* to.  The converter then has to
+  *pass* the values: `_make_constructor_call` walks `InputShape.params` and passes positionally until
+  the first parameter it leaves out (an optional field the source lacks, allowed by
+  `allow_unlinked_optional`), by keyword afterwards.  dataclass / NamedTuple / attrs report
+  positional-or-keyword parameters (attrs under the init alias `x` for `_x`, keyword-only ones last),
+  TypedDict / pydantic / SQLAlchemy keyword-only ones.  `convertModel` composes linking, planning and
+  Python's binding of the planned call (`bindCall`); the theorems say the outcome is the field-wise
+  specification `convertSpec`, which mentions no parameter and no kind. -/
+
+section
+variable {V W : Type}
+
+/-- **Field-wise specification of a converter** on the logical model alone: for every destination
+    field the (coerced) value the source object holds under the same id, nothing for a field the
+    source shape lacks.  `src` is *any* source shape (a sub-model, a super-model, another kind). -/
+def convertSpec (co : String → V → W) (m : LogicalModel) (src : OutputShape) (obj : List (String × V)) :
+    List (String × W) :=
+  m.fields.filterMap fun f => (lookSpec co src obj f.name).map (f.name, ·)
+
+/-- every kind's parameter list is fit for the planned call: distinct parameter names (attrs: the
+    init aliases), no positional-only parameter, one parameter per field -/
+theorem every_kind_params_wellformed {k : Kind} {m : LogicalModel} {i : InputShape} {o : OutputShape}
+    (h : shapeOf k m = .ok (i, o)) :
+    (i.params.map (·.name)).Nodup ∧ (∀ p ∈ i.params, p.kind ≠ .posOnly) ∧
+      (i.params.map (·.fieldId)).Perm (i.fields.map (·.id)) :=
+  ⟨(shape_params_wf h).names, (shape_params_wf h).noPosOnly, (shape_params_wf h).fields⟩
+
+/-- **the planned call binds field-wise** — any parameter list with distinct names and without
+    positional-only parameters, any set of skipped fields in any position: the plan exists (the
+    `CannotProvide` branch is dead) and Python binds exactly the linked parameters, each to its own
+    sub-plan. -/
+theorem planned_call_binds_fieldwise (look : String → Option V) (params : List Param) (kwargs : Bool)
+    (hnd : (params.map (·.name)).Nodup) (hk : ∀ p ∈ params, p.kind ≠ .posOnly) :
+    ∃ args, planCall look params false = some args ∧
+      bindCall params kwargs args = some (params.filterMap fun p => (look p.fieldId).map (p.fieldId, ·)) :=
+  bindCall_planCall look params kwargs hnd hk
+
+/-- **convert (field-wise), all six kinds, no side condition on the model**: for a source object
+    holding every source field, the converter into kind `k` is refused exactly when some destination
+    field has no source and is required or not allowed to stay unlinked; otherwise the destination
+    constructor receives exactly (as a multiset) `convertSpec`. -/
+theorem convert_fieldwise {k : Kind} {m : LogicalModel} {i : InputShape} {o : OutputShape}
+    (h : shapeOf k m = .ok (i, o)) (allow : String → Bool) (co : String → V → W) (src : OutputShape)
+    (obj : List (String × V)) (hobj : ∀ g ∈ src.fields, (obj.lookup g.id).isSome) :
+    (i.fields.any (Refuses allow src) = true → convertModel allow co i src obj = .noConverter) ∧
+    (i.fields.any (Refuses allow src) = false →
+      ∃ args, convertModel allow co i src obj = .ok args ∧ args.Perm (convertSpec co m src obj)) := by
+  have hids := (shape_ids h).1
+  have hnd : (i.fields.map (·.id)).Nodup := (hids.nodup_iff).mpr (shapeOf_namesOk h)
+  obtain ⟨h1, h2⟩ := convertModel_spec allow co i src obj (shape_params_wf h) hnd hobj
+  refine ⟨h1, fun hr => ?_⟩
+  obtain ⟨args, ha, hp⟩ := h2 hr
+  refine ⟨args, ha, hp.trans ?_⟩
+  have := hids.filterMap (fun id => (lookSpec co src obj id).map (id, ·))
+  refine this.trans (List.Perm.of_eq ?_)
+  simp [convertSpec, List.filterMap_map, Function.comp_def]
+
+/-- … hence, field by field: the argument the constructor receives for the logical field `f` is the
+    specification's — the source's value if the source has the field, none (left to the constructor:
+    `objectOf`) otherwise. -/
+theorem convert_fieldwise_lookup {k : Kind} {m : LogicalModel} {i : InputShape} {o : OutputShape}
+    (h : shapeOf k m = .ok (i, o)) (allow : String → Bool) (co : String → V → W) (src : OutputShape)
+    (obj : List (String × V)) (hobj : ∀ g ∈ src.fields, (obj.lookup g.id).isSome)
+    (args : List (String × W)) (hc : convertModel allow co i src obj = .ok args) :
+    ∀ f ∈ m.fields, args.lookup f.name = lookSpec co src obj f.name := by
+  obtain ⟨h1, h2⟩ := convert_fieldwise h allow co src obj hobj
+  cases hr : i.fields.any (Refuses allow src)
+  · obtain ⟨args', ha, hp⟩ := h2 hr
+    rw [hc] at ha
+    cases ha
+    intro f hf
+    have hnames := shapeOf_namesOk h
+    have hsnd : ((convertSpec co m src obj).map (·.1)).Nodup :=
+      (filterMap_keys_sublist (fun f : LField => f.name) (fun f => lookSpec co src obj f.name) m.fields).nodup hnames
+    rw [← perm_lookup hp.symm hsnd f.name]
+    exact lookup_filterMap_key (fun f : LField => f.name) (fun f => lookSpec co src obj f.name) m.fields hnames f hf
+  · rw [h1 hr] at hc
+    cases hc
+
+/-- **kinds_agree (convert)** — any two of the six kinds, any source shape, any policy: whenever
+    both converters exist, the two destination constructors receive the same argument for every
+    logical field. -/
+theorem kinds_agree_convert {m : LogicalModel} {k₁ k₂ : Kind} {s₁ s₂ : Shape}
+    (h₁ : shapeOf k₁ m = .ok s₁) (h₂ : shapeOf k₂ m = .ok s₂) (allow : String → Bool) (co : String → V → W)
+    (src : OutputShape) (obj : List (String × V)) (hobj : ∀ g ∈ src.fields, (obj.lookup g.id).isSome)
+    (a₁ a₂ : List (String × W)) (c₁ : convertModel allow co s₁.1 src obj = .ok a₁)
+    (c₂ : convertModel allow co s₂.1 src obj = .ok a₂) :
+    a₁.Perm a₂ ∧ ∀ f ∈ m.fields, a₁.lookup f.name = a₂.lookup f.name := by
+  obtain ⟨i₁, o₁⟩ := s₁
+  obtain ⟨i₂, o₂⟩ := s₂
+  refine ⟨?_, fun f hf => ?_⟩
+  · obtain ⟨r1, g1⟩ := convert_fieldwise h₁ allow co src obj hobj
+    obtain ⟨r2, g2⟩ := convert_fieldwise h₂ allow co src obj hobj
+    cases hr1 : i₁.fields.any (Refuses allow src)
+    · cases hr2 : i₂.fields.any (Refuses allow src)
+      · obtain ⟨b1, hb1, p1⟩ := g1 hr1
+        obtain ⟨b2, hb2, p2⟩ := g2 hr2
+        rw [c₁] at hb1
+        rw [c₂] at hb2
+        cases hb1
+        cases hb2
+        exact p1.trans p2.symm
+      · rw [r2 hr2] at c₂
+        cases c₂
+    · rw [r1 hr1] at c₁
+      cases c₁
+  · rw [convert_fieldwise_lookup h₁ allow co src obj hobj a₁ c₁ f hf,
+      convert_fieldwise_lookup h₂ allow co src obj hobj a₂ c₂ f hf]
+
+/-- the converted *objects* of the four plain kinds are field-wise equal: the fields the source has
+    hold the source's values, the others the declared default (`objectOf`) -/
+theorem kinds_agree_convert_objects {m : LogicalModel} {k₁ k₂ : Kind} {s₁ s₂ : Shape}
+    (h₁ : shapeOf k₁ m = .ok s₁) (h₂ : shapeOf k₂ m = .ok s₂)
+    (p₁ : k₁ ≠ .typedDict ∧ k₁ ≠ .sqlalchemy) (p₂ : k₂ ≠ .typedDict ∧ k₂ ≠ .sqlalchemy)
+    (allow : String → Bool) (co : String → V → W) (src : OutputShape) (obj : List (String × V))
+    (hobj : ∀ g ∈ src.fields, (obj.lookup g.id).isSome) (lit : Scalar → W) (call : Factory → W) (none_ : W)
+    (a₁ a₂ : List (String × W)) (c₁ : convertModel allow co s₁.1 src obj = .ok a₁)
+    (c₂ : convertModel allow co s₂.1 src obj = .ok a₂) :
+    objectOf k₁ lit call none_ m a₁ = objectOf k₂ lit call none_ m a₂ := by
+  rw [kinds_agree_objects p₁ p₂ lit call none_ a₁]
+  unfold objectOf
+  apply List.map_congr_left
+  intro f hf
+  rw [(kinds_agree_convert h₁ h₂ allow co src obj hobj a₁ a₂ c₁ c₂).2 f hf]
+
+/-- a logical field the source lacks and that is required, or optional but not allowed to stay unlinked -/
+def RefusesL (allow : String → Bool) (src : OutputShape) (f : LField) : Bool :=
+  !linkedIn src f.name && (f.default.isNone || !allow f.name)
+
+/-- **the same refusals**: kinds that reproduce the specification — and TypedDict, which keeps every
+    `required` flag — refuse the converter for the same (source, policy): exactly when a logical
+    field without source is required or not allowed.  (SQLAlchemy deviates where its optional
+    autoincrement key / nullable columns do: `full_strength_fails_sqlalchemy_optional`.) -/
+theorem kinds_agree_convert_refusal {k : Kind} {m : LogicalModel} {i : InputShape} {o : OutputShape}
+    (h : shapeOf k m = .ok (i, o)) (he : Exact k m = true ∨ k = .typedDict) (allow : String → Bool)
+    (co : String → V → W) (src : OutputShape) (obj : List (String × V))
+    (hobj : ∀ g ∈ src.fields, (obj.lookup g.id).isSome) :
+    convertModel allow co i src obj = .noConverter ↔ m.fields.any (RefusesL allow src) = true := by
+  have hany : i.fields.any (Refuses allow src) = m.fields.any (RefusesL allow src) := by
+    have hspec : i.fields.any (Refuses allow src)
+        = i.specs.any (fun s => !linkedIn src s.id && (s.required || !allow s.id)) := by
+      simp only [InputShape.specs, List.any_map, Function.comp_def, InField.spec]
+      rfl
+    rw [hspec]
+    rcases he with he | rfl
+    · rw [(exact_projection h he).1]
+      simp only [LogicalModel.inSpecs, List.any_map, Function.comp_def, LField.inSpec]
+      rfl
+    · rw [any_perm (shape_projection_typedDict h).1]
+      simp only [LogicalModel.inSpecs, List.any_map, Function.comp_def, LField.inSpec, InSpec.eraseDefault]
+      rfl
+  obtain ⟨h1, h2⟩ := convert_fieldwise h allow co src obj hobj
+  rw [← hany]
+  constructor
+  · intro hc
+    cases hr : i.fields.any (Refuses allow src)
+    · obtain ⟨args, ha, _⟩ := h2 hr
+      rw [hc] at ha
+      cases ha
+    · rfl
+  · exact h1
+
+end
+
+/-! non-vacuity of 4b: `a: str, b: str = "B", c: str = "C"` fed from a source with `a` and `c` only -/
+
+def mABC : LogicalModel :=
+  { fields := [{ name := "a", ty := .str }, { name := "b", ty := .str, default := .value (.str "B") },
+               { name := "c", ty := .str, default := .value (.str "C") }] }
+def srcAC : OutputShape :=
+  { fields := [{ id := "a", ty := { ty := .str }, default := .none, accessor := .attr "a" false },
+               { id := "c", ty := { ty := .str }, default := .none, accessor := .attr "c" false }], overriden := [] }
+
+/-- dataclass: `Dst(data.a, c=data.c)` — `a` positionally, `c` by keyword because `b` was left out -/
+example : (shapeOf .dataclass mABC).toOption.map (fun s => planCall (fun id => if id == "b" then none else some id) s.1.params false)
+    = some (some [.pos "a", .kw "c" "c"]) := by decide
+example : (shapeOf .dataclass mABC).toOption.map
+      (fun s => convertModel (fun id => id == "b") (fun _ (v : Nat) => v) s.1 srcAC [("a", 1), ("c", 3)])
+    = some (.ok [("a", 1), ("c", 3)]) := by decide
+example : (shapeOf .pydantic mABC).toOption.map
+      (fun s => convertModel (fun id => id == "b") (fun _ (v : Nat) => v) s.1 srcAC [("a", 1), ("c", 3)])
+    = some (.ok [("a", 1), ("c", 3)]) := by decide
+/-- the default policy forbids the unlinked `b`: no converter -/
+example : (shapeOf .dataclass mABC).toOption.map
+      (fun s => convertModel (fun _ => false) (fun _ (v : Nat) => v) s.1 srcAC [("a", 1), ("c", 3)])
+    = some .noConverter := by decide
+/-- the binding model tells the calls apart: passing `c` positionally after the gap (a flag that is
+    not sticky) would put the source's `c` into `b` -/
+example : (shapeOf .dataclass mABC).toOption.map (fun s => bindCall s.1.params s.1.kwargs [CallArg.pos 1, CallArg.pos 3])
+    = some (some [("a", 1), ("b", 3)]) := by decide
+/-- attrs: the keyword is the init alias, not the field id -/
+example : (shapeOf .attrs { fields := [{ name := "x", ty := .int, default := .value (.int 0) },
+                                        { name := "_p", ty := .str, default := .value (.str "d") }] }).toOption.map
+      (fun s => planCall (fun id => if id == "x" then none else some id) s.1.params false)
+    = some (some [.kw "p" "_p"]) := by decide
 
 /-! ## 5. The full-strength statement fails: concrete witnesses (the model follows the code as it is) -/
 
